@@ -1,4 +1,5 @@
 import CasbinV.Model.Effect
+import CasbinV.Model.Graph
 import CasbinV.Gen.Effectors
 import CasbinV.Props.C01
 import CasbinV.Props.C08
